@@ -9,6 +9,12 @@ from pyglove.ext.evolution import base as evo_base  # noqa: F401
 # spaces
 
 
+def gen_seed(rng):
+    """A seed argument; 0 (a valid seed that is falsy) comes up often."""
+    r = rng.randint(0, 10 ** 6)
+    return 0 if r % 7 == 0 else r
+
+
 def gen_space(rng, max_points=4, depth=0, allow_float=True, named=None,
               counter=None, bias=False):
     """Random DNASpec descriptor.  Small on purpose so dedup/sweep exhaust:
@@ -111,7 +117,7 @@ def space_has_float(desc):
 
 def gen_mutator(rng, allow_swap=False):
     kinds = ['uniform'] * 3 + (['swap'] if allow_swap else [])
-    return {'kind': rng.choice(kinds), 'seed': rng.randint(0, 10 ** 6)}
+    return {'kind': rng.choice(kinds), 'seed': gen_seed(rng)}
 
 
 def build_mutator(desc):
@@ -129,7 +135,7 @@ ALGO_KINDS = ['sweeping', 'random', 'dedup_random', 'dedup_sweeping',
 
 def gen_algo(rng, kinds=None, allow_swap=False):
     kind = rng.choice(kinds or ALGO_KINDS)
-    seed = rng.randint(0, 10 ** 6)
+    seed = gen_seed(rng)
     d = {'kind': kind, 'seed': seed}
     if kind.startswith('dedup'):
         d['max_duplicates'] = rng.choice([1, 1, 2, 3])
